@@ -285,20 +285,37 @@ def source_facts(ctx, exe):
         if e is None or e["class"] != c:
             exp_bad.append({"box_type": t, "expected": c, "extracted": None if e is None else e["class"], "reason": "" if e is None else e["why"]})
     # the extractor on mutated copies of the sources
-    mut = run_mutations(ctx, exe)
+    mut = run_mutations(ctx, exe, decs, encs)
+    # dynamic cross-check: reader methods observed while decoding harvested boxes vs the static method sets
+    rc, po, pe = sh2([exe, "probe", "-repo", common.REPO], timeout=600)
+    pl = [l.split("\t") for l in po.splitlines()]
+    probe_fail = [{"box_type": bytes.fromhex(f[1]).decode("latin1"), "method": f[2]} for f in pl if f[0] == "PROBEFAIL"]
+    if rc not in (0, 1) or any(f[0] == "PROBEERR" for f in pl):
+        raise common.CheckError("harness probe failed: " + (pe or po)[-800:])
+    mut["probe"] = {"types_probed": sum(1 for f in pl if f[0] == "PROBE"), "relative_types_probed": sum(1 for f in pl if f[0] == "PROBE" and f[3] == "true"),
+                    "decodes": sum(int(f[2]) for f in pl if f[0] == "PROBE"), "unpredicted_methods": probe_fail}
+    if probe_fail:
+        mut["missed"] = mut["missed"] + ["probe:%s.%s" % (x["box_type"], x["method"]) for x in probe_fail[:5]]
     stale = sorted(n for lst in L.values() for n in lst if n not in {d["R"] for d in decs} | {e["type"] for e in encs})
     ctx.notes["source_facts"] = {"stats": stats, "decoder_pairs": len(decs), "decoder_coverage": cov, "encoder_types": len(encs),
                                  "encoder_coverage": ecov, "offenders": offenders[:20], "expectations_checked": len(EXPECT_DEC) + len(EXPECT_ENC),
                                  "expectation_mismatches": exp_bad[:20], "extractor_mutation_tests": mut, "policy_names_without_fact": stale}
     ctx.cov["evaluations"] += len(decs) + len(encs) + len(mut["results"])
-    ctx.log("source facts: %d decoder pairs %s, %d encoder types %s; %d offenders, %d/%d expectations differ, extractor mutation tests %d/%d detected (%d skipped)"
+    ctx.log("source facts: %d decoder pairs %s, %d encoder types %s; %d offenders, %d/%d expectations differ, extractor mutation tests %d/%d detected (%d skipped), "
+            "probe: %d relative decoders run on harvested boxes, %d unpredicted reader methods"
             % (len(decs), cov, len(encs), ecov, len(offenders), len(exp_bad), len(EXPECT_DEC) + len(EXPECT_ENC),
-               mut["detected"], mut["applied"], mut["skipped"]))
+               mut["detected"], mut["applied"], mut["skipped"], mut["probe"]["relative_types_probed"], len(probe_fail)))
     return offenders, exp_bad, mut
 
 
-def run_mutations(ctx, exe):
-    """Copies the library sources to a scratch directory, applies one hand rewrite at a time, and runs the extractor on it."""
+def run_mutations(ctx, exe, decs0, encs0):
+    """Copies the library sources to a scratch directory, applies one hand rewrite at a time, and runs the extractor on it.
+    A mutation is applicable when its target is in its pinned class on the unmodified tree (decs0 / encs0)."""
+    base_dec = {d["key"]: class_str(d) for d in decs0}
+    base_enc = {e["type"]: e["class"] for e in encs0}
+    pre = {"btrt": "delegating", "tfhd": "delegating", "stts": "delegating", "mvhd": "delegating", "ftyp": "delegating", "CoLL": "delegating",
+           "colr": "delegating", "kind": "delegating", "dinf": "container-twin", "moov": "container-body",
+           "BtrtBox": "delegating", "DinfBox": "container", "MoofBox": "twin"}
     base = os.path.join(common.BUILD, "c03-mut-%d" % os.getpid())
     res = {"applied": 0, "detected": 0, "skipped": 0, "results": [], "missed": []}
     try:
@@ -311,6 +328,10 @@ def run_mutations(ctx, exe):
         for name, rel, old, new, kind, key, want in MUTATIONS:
             path = os.path.join(base, rel)
             orig = open(path).read() if os.path.exists(path) else ""
+            if (base_dec if kind == "dec" else base_enc).get(key) != pre[key]:
+                res["skipped"] += 1
+                res["results"].append({"mutation": name, "outcome": "skipped (%s is not %s on this tree)" % (key, pre[key])})
+                continue
             if orig.count(old) != 1:
                 res["skipped"] += 1
                 res["results"].append({"mutation": name, "outcome": "skipped (anchor text not found exactly once)"})
@@ -452,7 +473,7 @@ def run(ctx):
                       no_input=not fails)
     if mut["missed"]:
         ctx.violation({"kind": "extractor-self-test", "missed": mut["missed"], "results": mut["results"]},
-                      "source-fact extractor no longer detects the hand rewrite(s) %s on a scratch copy of the sources" % ",".join(mut["missed"][:4]),
+                      "source-fact extractor self-test: hand rewrite(s) on a scratch copy of the sources not detected / reader methods observed at run time but not predicted: %s" % ",".join(mut["missed"][:4]),
                       no_input=True)
     if pr["failed"] and offenders:
         # the facts explain the broken classification theorem; make sure nothing else is broken
